@@ -454,13 +454,17 @@ def run_qdq(c):
         st_, der = run(ops[idv][2], [scratch[n] for n in ops[idv][1]])
         if st_ == "ok" and any(isinstance(y, G.base.Tensor) and type(y) is type(X) and y.array.shape == X.array.shape for y in (der if isinstance(der, (list, tuple)) else [der])):
             derivers.append(idv)
+    # generic derivations that exist for every object kind (the registry has them only for some pool names)
+    generic = [("t0*X", lambda pool: pool["t0"] * pool[x]), ("X+p1", lambda pool: pool[x] + pool["p1"]), ("X.copy()", lambda pool: pool[x].copy())]
+    if isinstance(X, G.base.TensorCollection):
+        generic.append(("X[::1]", lambda pool: pool[x][::1]))
+    derivers = [(ops[i][0], (lambda pool, i=i: ops[i][2](*[pool[n] for n in ops[i][1]]))) for i in derivers] + generic
     for ia in users:
-        for idv in derivers:
+        for nD, fD in derivers:
             pool = extend_pool(d, O.pool_for(d, v))
             nA, aA, fA, _ = ops[ia]
             run(fA, [pool[n] for n in aA])
-            nD, aD, fD, _ = ops[idv]
-            st_, der = run(fD, [pool[n] for n in aD])
+            st_, der = run(fD, [pool])
             if st_ != "ok":
                 continue
             ders = [y for y in (der if isinstance(der, (list, tuple)) else [der]) if isinstance(y, G.base.Tensor) and type(y) is type(X) and y.array.shape == X.array.shape]
